@@ -37,6 +37,10 @@ Classify(l) ==
   ELSE IF t.name = END /\ t.args = <<>> THEN CL("end", <<>>, FALSE, 0)
   ELSE IF t.name = PASSWORD /\ Len(t.args) = 1 THEN CL("password", t.args[1], FALSE, 0)
   ELSE IF t.name = REQ /\ Len(t.args) >= 1 THEN CL("req", t.args[1], \E k \in 2..Len(t.args) : t.args[k] = FAILW, PadOf(t.args))
+  ELSE IF t.name = K_STICKER /\ Len(t.args) = 4 /\ t.args[1] = <<103,101,116>> /\ t.args[2] = <<115,111,110,103>> /\ t.args[4] = <<110>> THEN CL("sticker", t.args[3], FALSE, 0)
+  ELSE IF t.name = <<117,112,100,97,116,101>> /\ Len(t.args) = 1 THEN CL("update", t.args[1], FALSE, 0)
+  ELSE IF t.name = <<97,100,100,105,100>> /\ Len(t.args) = 1 THEN CL("addid", t.args[1], FALSE, 0)
+  ELSE IF t.name = <<99,104,97,110,110,101,108,115>> /\ t.args = <<>> THEN CL("channels", <<>>, FALSE, 0)
   ELSE IF t.name \in {READPICTURE, ALBUMART} /\ Len(t.args) = 2 /\ IsDigits(t.args[2])
        THEN CL("pic", t.args[1], t.name = READPICTURE, NumOf(t.args[2]))
   ELSE CL("other", t.name, FALSE, 0)
@@ -49,8 +53,8 @@ PicByte(tag, k) == IF k = 0 THEN tag ELSE
 Digest(tag, off, n) == [j \in 1..Min(4, n) |-> PicByte(tag, off + j - 1)] \o [j \in 1..Min(4, n) |-> PicByte(tag, off + n - j)]
 
 JLine(j) == Line(j.t, j.k, j.v, j.a, j.b)
-JCmds(cs) == [k \in 1..Len(cs) |-> Cmd(cs[k].id, cs[k].fail, cs[k].pad)]
-JRes(r) == [Res(r.t, r.frames, r.code, r.idx, r.cmd, r.msg) EXCEPT !.kind = r.kind]
+JCmds(cs) == [k \in 1..Len(cs) |-> IF cs[k].t = "req" THEN Cmd(cs[k].id, cs[k].fail, cs[k].pad) ELSE CmdT(cs[k].t, cs[k].id)]
+JRes(r) == [Res(r.t, r.frames, r.code, r.idx, r.cmd, r.msg) EXCEPT !.kind = r.kind, !.items = r.items]
 PairSet(s) == {s[k] : k \in 1..Len(s)}
 
 \* conformance of the Rust simulator with the server model: the k-th srv_out record is the k-th reply of the model
